@@ -120,7 +120,24 @@ def c16(ctx: Ctx) -> None:
     ctx.rule('C16-TA11', 'the sync bridge\'s worker runs the producer coroutine with run_until_complete on the given loop or a new one (never None)', 1)
     sent = _sentinel(p)
     if sent is None:
-        raise AnalysisError('module-level sentinel (X = object()) not found')
+        # no private object: is there an end marker at all?  (decided on the original source: a literal marker is folded away by
+        # the loader)  A module-level name that the bridges both hand to a put and compare dequeued values with, bound to
+        # something an element can be - None, a literal, Ellipsis - ends the stream at the first such element
+        u0 = p.unit(A)
+        raw = ast.parse(u0.src)
+        mod_vals = {st.targets[0].id: st.value for st in raw.body if isinstance(st, ast.Assign) and len(st.targets) == 1 and isinstance(st.targets[0], ast.Name)}
+        for fn_ in [x for x in raw.body if isinstance(x, (ast.FunctionDef, ast.AsyncFunctionDef)) and x.name in ('to_async_iter', 'to_sync_iter')]:
+            cmp_names = {y.id for x in ast.walk(fn_) if isinstance(x, ast.Compare) for y in [x.left] + x.comparators if isinstance(y, ast.Name)}
+            arg_names = {y.id for x in ast.walk(fn_) if isinstance(x, ast.Call) for y in x.args if isinstance(y, ast.Name)}
+            for nm in sorted(cmp_names & arg_names & set(mod_vals)):
+                v = mod_vals[nm]
+                ctx.violation('C16-TA2', f'{fn_.name}: the end marker {nm} = {norm(v)} is not a private object', f'{A}:{v.lineno}',
+                              'the end-of-stream marker is a value an element of the source can be (or equal): the first such element ends the '
+                              'iteration early and the rest is dropped', construct=construct_key(fn_.name, 'end marker not private'))
+                sent = nm
+        if sent is None:
+            raise AnalysisError('module-level sentinel (X = object()) not found')
+        return      # the remaining rules are about a protocol with a private marker
     for fname in ('to_async_iter', 'to_sync_iter'):
         f = p.func(A, fname)
         g = build(f, p)
